@@ -13,7 +13,11 @@ RULE = ("same shapes and embedding scenarios as C01; for each shape the document
         "class of code point incl. high and low surrogates, and four kinds of broken escapes) with the meaning the definition gives (pairs "
         "combined, lone surrogates and invalid bytes replaced by U+FFFD) or the rejection, padded to every offset of an 8-byte word, read as a "
         "value, element, field value, map key, through Unmarshal, Parse with the copy flags, Decoder, Unescape / AppendUnescape, "
-        "RawValue.Unquote and Tokenizer.String")
+        "RawValue.Unquote and Tokenizer.String; plus spec/Base64.tla: the text of every byte string of up to 3 (thorough 4) bytes over {0, 65, 251, 255} "
+        "behind 0, 11 (and 22) fixed groups in each presentation (as written; LF, CR, CRLF put in; a space; a character outside the alphabet; a pad in "
+        "the place of a sextet; one pad more, one less, none; trailing bits set; a group after the padding; cut short) with the verdict and bytes of "
+        "the specification's reader, read into 10 targets (plain, named, behind pointers, field, map value merged, elements; some holding earlier "
+        "content) through Unmarshal, Parse and Decoder x {UseNumber + DisallowUnknownFields}, line breaks written as \\n and as \\u000a")
 ASSUME = ["encoding/json is the oracle of record; after a failed decode both variables are reset (partial content is outside the guarantee)",
           "time.Time values are compared as instants with equal zone offsets"]
 
@@ -36,6 +40,19 @@ def extra(ck, vec):
     ck.add_mc(g2, "Gen_JsonStringUnesc(2 units, all 37 literal units)")
     ck.add_mc(g3, "Gen_JsonStringUnesc(3 units)")
     ck.notes["literal_unit_sequences"] = g2.vectors + g3.vectors
+    # the text of a []byte read back: the reader of spec/Base64.tla, one symbol per step, over every presentation of the writer's text
+    b64 = jsoncommon.base64_defines(ck.tier == "thorough")
+    mc = vlib.must_hold(vlib.tlc("Base64", "MC_Base64.cfg", workers=8, defines=b64, timeout=3000),
+                        "Base64: length and padding laws, round trip, line breaks invisible, damaged padding rejected")
+    ck.add_mc(mc, "MC_Base64")
+    w = vlib.tlc("Base64", "MC_Base64Strict.cfg", workers=4, expect_violation=True)
+    if w.ok or w.violation != "NewlinesInvisible":
+        raise vlib.Infra("Base64 with a reader that rejects line breaks should violate NewlinesInvisible: the model is vacuous")
+    ck.add_mc(w, "MC_Base64Strict(vacuity witness)")
+    with open(vec, "a") as sink:
+        g = vlib.must_hold(vlib.tlc("Base64", "Gen_Base64.cfg", workers=8, sink=sink, defines=b64, timeout=3000), "base64 texts and their presentations")
+    ck.add_mc(g, "Gen_Base64")
+    ck.notes["base64_presentations"] = g.vectors
 
 
 def run(tier, seed):
